@@ -9,6 +9,7 @@ computed while the text is laid out, never read back from xdoctest.
 import json
 
 from peer import tok
+import directives as D
 
 # ----------------------------------------------------------------------------
 # step forms
@@ -18,6 +19,11 @@ from peer import tok
 # part when a want follows) ; value (pid whose Val is the expression's value).
 
 TB_HEADER = 'Traceback (most recent call last):'
+
+
+def directive_text(dirs):
+    """dirs: list of [sign, NAME, arg-or-None]"""
+    return ', '.join('%s%s%s' % (s, n, '(%s)' % a if a else '') for s, n, a in dirs)
 
 
 def _L(*texts):
@@ -88,7 +94,7 @@ def form_lines(st):
     if f == 'comment':
         return _L("# comment %d" % i)
     if f == 'directive':
-        return _L("# xdoctest: %s" % st['text'])
+        return _L("# xdoctest: %s" % directive_text(st['dirs']))
     if f == 'await':
         return _L("sim_aw%d = await S.aop('%s')" % (i, p[0]))
     if f == 'awaitexpr':
@@ -242,7 +248,7 @@ def want_lines_for(st, window_nominal):
     return lines
 
 
-def render_doctest(dt, indent, out, lineno0):
+def render_doctest(dt, indent, out, lineno0, env=None, defaults=None):
     """Append the lines of one doctest (without tag) to ``out``.
     ``lineno0`` is the 1-based file line the first appended line will get.
     Returns step meta."""
@@ -250,7 +256,10 @@ def render_doctest(dt, indent, out, lineno0):
     window = []             # nominal outputs since previous want
     first = True
     pad = indent
-    for st in dt['steps']:
+    if dt.get('disabled'):
+        out.append(pad + '>>> # ' + dt['disabled'])
+    runs = D.executed_flags(dt['steps'], env or {}, defaults)
+    for st, st_runs in zip(dt['steps'], runs):
         sep = st.get('sep', 'none')
         if not first:
             if sep == 'blank':
@@ -261,7 +270,7 @@ def render_doctest(dt, indent, out, lineno0):
                 out.append('')
         first = False
         lines = form_lines(st)
-        inline = st.get('inline')
+        inline = directive_text(st['inline']) if st.get('inline') else None
         first_line = lineno0 + len(out)
         n = len(lines)
         for j, (text, prefixed) in enumerate(lines):
@@ -281,16 +290,17 @@ def render_doctest(dt, indent, out, lineno0):
             want_line = lineno0 + len(out)
             for w in wl:
                 out.append(pad + w)
-            window = []
+            if st_runs:
+                window = []
         else:
-            if st['form'] not in NOCODE_FORMS:
+            if st['form'] not in NOCODE_FORMS and st_runs:
                 window = window + form_out(st)
         meta_steps.append({'first': first_line, 'last': last_line, 'want_line': want_line,
-                           'want_text': '\n'.join(wl) if wl else None})
+                           'want_text': '\n'.join(wl) if wl else None, 'runs_nominally': st_runs})
     return meta_steps
 
 
-def render_docstring(doc, base_indent, out, lineno0, modname, callname, meta):
+def render_docstring(doc, base_indent, out, lineno0, modname, callname, meta, env=None, defaults=None):
     """doc = {'layout': 'google'|'freeform', 'tabs': bool, 'doctests': [...]}"""
     ind = base_indent
     start = len(out)
@@ -303,7 +313,7 @@ def render_docstring(doc, base_indent, out, lineno0, modname, callname, meta):
             body_ind = ind + '    '
             dtid = '%s::%s:%d' % (modname, callname, num)
             ln = lineno0 + len(out)
-            steps = render_doctest(dt, body_ind, out, lineno0)
+            steps = render_doctest(dt, body_ind, out, lineno0, env, defaults)
             meta[dtid] = {'lineno': ln, 'steps': steps, 'modname': modname, 'callname': callname, 'num': num}
     else:
         assert len(doc['doctests']) <= 1
@@ -311,7 +321,7 @@ def render_docstring(doc, base_indent, out, lineno0, modname, callname, meta):
             out.append('')
             dtid = '%s::%s:%d' % (modname, callname, num)
             ln = lineno0 + len(out)
-            steps = render_doctest(dt, ind, out, lineno0)
+            steps = render_doctest(dt, ind, out, lineno0, env, defaults)
             meta[dtid] = {'lineno': ln, 'steps': steps, 'modname': modname, 'callname': callname, 'num': num}
     out.append(ind + '"""')
     if doc.get('tabs'):
@@ -355,7 +365,7 @@ def modhelper3(pid):
 '''
 
 
-def render_module(mod):
+def render_module(mod, env=None, defaults=None):
     """-> (text, meta)"""
     meta = {}
     out = []
@@ -365,7 +375,7 @@ def render_module(mod):
     rest = []
     for it in items:
         if it['kind'] == 'moddoc':
-            render_docstring(it['doc'], '', out, 1, modname, '__doc__', meta)
+            render_docstring(it['doc'], '', out, 1, modname, '__doc__', meta, env, defaults)
         else:
             rest.append(it)
     for line in (MODULE_PRELUDE % {'modname': modname, 'short': modname.split('.')[-1]}).split('\n'):
@@ -377,12 +387,12 @@ def render_module(mod):
                 out.append('@' + d)
             out.append('%sdef %s(a=None):' % ('async ' if it.get('async') else '', it['name']))
             if it.get('doc'):
-                render_docstring(it['doc'], '    ', out, 1, modname, it['name'], meta)
+                render_docstring(it['doc'], '    ', out, 1, modname, it['name'], meta, env, defaults)
             out.append('    return a')
         elif it['kind'] == 'class':
             out.append('class %s:' % it['name'])
             if it.get('doc'):
-                render_docstring(it['doc'], '    ', out, 1, modname, it['name'], meta)
+                render_docstring(it['doc'], '    ', out, 1, modname, it['name'], meta, env, defaults)
             out.append('    attr = 1')
             for m in it.get('methods', []):
                 out.append('')
@@ -393,7 +403,7 @@ def render_module(mod):
                     args = 'cls'
                 out.append('    def %s(%s):' % (m['name'], args))
                 if m.get('doc'):
-                    render_docstring(m['doc'], '        ', out, 1, modname, it['name'] + '.' + m['name'], meta)
+                    render_docstring(m['doc'], '        ', out, 1, modname, it['name'] + '.' + m['name'], meta, env, defaults)
                 out.append('        return 1')
         else:
             raise KeyError(it['kind'])
@@ -403,14 +413,14 @@ def render_module(mod):
     return text, meta
 
 
-def render_world(world):
+def render_world(world, env=None):
     """-> files {relpath: text}, meta {dtid: {...}}"""
     files = {}
     meta = {}
     for rel in world.get('init_files', []):
         files[rel] = ''
     for mod in world['modules']:
-        text, m = render_module(mod)
+        text, m = render_module(mod, env, world.get('defaults'))
         files[mod['relpath']] = text
         for dtid, v in m.items():
             v['relpath'] = mod['relpath']
